@@ -1,80 +1,5 @@
-(* C05 - proofs about the work-queue model: termination law (general) and the bounded exhaustive
-   exploration (graph invariant + protocol validity) lifted to a universally quantified statement. *)
-From GV Require Import Base.Prelude Incr.Protocol Incr.WorkQueue Incr.Publisher Incr.Explore Incr.Universe.
-
-(* ------------------------------------------------------------------ path enumeration is complete *)
-Lemma paths_complete E cands : forall n s evs,
-  (length evs <= n)%nat -> Forall (fun e => In e cands) evs -> enabled_path E s evs = true ->
-  In evs (paths E cands n s).
-Proof.
-  induction n as [|n IH]; intros s evs Hl Hc He.
-  - destruct evs; [left; reflexivity | cbn in Hl; lia].
-  - destruct evs as [|e r]; [left; reflexivity|].
-    cbn in Hl. inversion Hc as [|? ? Hin Hr]; subst.
-    cbn in He. apply andb_true_iff in He as [He1 He2].
-    right. apply in_flat_map. exists e. split; [exact Hin|].
-    rewrite He1. apply in_map. apply IH; [lia | exact Hr | exact He2].
-Qed.
-
-Lemma explore_sound n E w :
-  explore n (E, w) = true ->
-  forall evs, (length evs <= n)%nat -> Forall (fun e => In e (candidates E)) evs ->
-  enabled_path E (snd (init E w)) evs = true -> check_path E w evs = true.
-Proof.
-  unfold explore. intros H evs Hl Hc He.
-  rewrite forallb_forall in H. apply H. apply paths_complete; assumption.
-Qed.
-
-(* ------------------------------------------------------------------ the computations *)
-Lemma explore_universe_5 : forallb (explore 5) universe = true.
-Proof. vm_cast_no_check (eq_refl true). Qed.
-
-Lemma explore_small_10 : forallb (explore 10) (filter small_graph universe) = true.
-Proof. vm_cast_no_check (eq_refl true). Qed.
-
-Theorem bounded_universe : forall E w, In (E, w) universe ->
-  forall evs, (length evs <= 5)%nat -> Forall (fun e => In e (candidates E)) evs ->
-  enabled_path E (snd (init E w)) evs = true -> check_path E w evs = true.
-Proof.
-  intros E w Hin. apply explore_sound.
-  pose proof explore_universe_5 as H. rewrite forallb_forall in H. exact (H _ Hin).
-Qed.
-
-Theorem bounded_small : forall E w, In (E, w) universe -> small_graph (E, w) = true ->
-  forall evs, (length evs <= 10)%nat -> Forall (fun e => In e (candidates E)) evs ->
-  enabled_path E (snd (init E w)) evs = true -> check_path E w evs = true.
-Proof.
-  intros E w Hin Hs. apply explore_sound.
-  pose proof explore_small_10 as H. rewrite forallb_forall in H. apply H.
-  apply (proj2 (filter_In small_graph (E, w) universe)). split; assumption.
-Qed.
-
-(* what check_path gives, as separate facts *)
-Lemma check_path_facts E w evs :
-  check_path E w evs = true ->
-  let '(ig, is_, s0) := init E w in
-  let '(s1, outs) := run_batches E s0 (single evs) in
-  let ps := publish E ig is_ outs in
-  inv E s1 = true
-  /\ (stopped s1 = true \/ exists e, In e (candidates E) /\ en_single E s1 e = true)
-  /\ last_step_ok E s0 evs = true
-  /\ valid_prefix (e_parent E) ps = true
-  /\ (stopped s1 = true -> valid (e_parent E) ps = true)
-  /\ creation_ok E (concat outs) = true.
-Proof.
-  unfold check_path. destruct (init E w) as [[ig is_] s0].
-  destruct (run_batches E s0 (single evs)) as [s1 outs]. cbn zeta.
-  intro H.
-  apply andb_true_iff in H as [H H6]. apply andb_true_iff in H as [H H5].
-  apply andb_true_iff in H as [H H4]. apply andb_true_iff in H as [H H3].
-  apply andb_true_iff in H as [H1 H2].
-  split; [exact H1|]. split.
-  - apply orb_true_iff in H2 as [X|X]; [left; exact X|].
-    right. apply existsb_exists in X. exact X.
-  - split; [exact H3|]. split; [exact H4|]. split.
-    + intro Hs. rewrite Hs in H5. exact H5.
-    + exact H6.
-Qed.
+(* C05 - general facts about the work-queue model: the stopped flag, termination exactly once. *)
+From GV Require Import Base.Prelude Incr.Protocol Incr.WorkQueue.
 
 (* ------------------------------------------------------------------ the stopped flag is only set by run_batch *)
 Lemma fold_pres {A S} (P : S -> Prop) (f : S -> A -> S) l :
@@ -200,8 +125,8 @@ Lemma stopped_task_failure E t s : stopped (snd (task_failure E t s)) = stopped 
 Proof.
   unfold task_failure.
   apply (fold_pres (fun st : list wqevent * state => stopped (snd st) = stopped s)); [|reflexivity].
-  intros [evs s'] g H. cbn in H. destruct (aget g (gnodes s')) as [n|]; [|exact H].
-  cbn. unfold remove_group_top. rewrite stopped_remove_group. exact H.
+  intros [evs s'] g H. cbn [snd] in H. destruct (aget g (gnodes s')) as [n|]; [|exact H].
+  cbn [snd]. unfold remove_group_top. cbn [set_roots stopped]. rewrite stopped_remove_group. exact H.
 Qed.
 
 Lemma stopped_stream_items E x n b s : stopped (snd (stream_items E x n b s)) = stopped s.
@@ -222,10 +147,10 @@ Qed.
 
 Lemma stopped_step E s e : stopped (fst (step E s e)) = stopped s.
 Proof.
-  destruct e; cbn [step].
+  destruct e as [t|t|x n b|x|x]; cbn [step].
   - pose proof (stopped_task_success E t s). destruct (task_success E t s); exact H.
   - pose proof (stopped_task_failure E t s). destruct (task_failure E t s); exact H.
-  - pose proof (stopped_stream_items E s0 n stopped0 s). destruct (stream_items E s0 n stopped0 s); exact H.
+  - pose proof (stopped_stream_items E x n b s). destruct (stream_items E x n b s); exact H.
   - destruct (memN _ _); reflexivity.
   - reflexivity.
 Qed.
@@ -257,26 +182,26 @@ Proof.
   unfold task_success.
   destruct (integrate E (twork E t) (Some t) _) as [[a b] s2].
   match goal with |- context [fold_left ?f ?l (?e0, ?n1, ?n2, ?s0)] =>
-    pose proof (fold_no_term f (fun st => fst (fst (fst st))) l (e0, n1, n2, s0)) as H end.
-  match goal with |- context [fold_left ?f ?l ?i] => destruct (fold_left f l i) as [[[evs ngs] nss] s3] eqn:F end.
-  cbn. cbn in H. apply H; [reflexivity|].
-  intros [[[evs' ngs'] nss'] s'] g Hn. cbn in Hn |- *.
-  destruct (aget g (gnodes s')) as [n|]; [|exact Hn].
-  destruct (memN g (roots s') && Nat.eqb (gn_pending n) 0); [|exact Hn].
-  pose proof (finish_no_term E g n s') as Hf.
-  destruct (finish_group_success E g n s') as [[[e cg] cs] s'']. cbn in Hf |- *.
-  rewrite no_term_app, Hn, Hf. reflexivity.
+    assert (H : no_term (fst (fst (fst (fold_left f l (e0, n1, n2, s0))))) = true) end.
+  { apply (fold_pres (fun st : list wqevent * list N * list N * state => no_term (fst (fst (fst st))) = true));
+      [|reflexivity].
+    intros [[[evs' ngs'] nss'] s'] g Hn. cbn [fst] in Hn.
+    destruct (aget g (gnodes s')) as [n|]; [|exact Hn].
+    destruct (memN g (roots s') && Nat.eqb (gn_pending n) 0); [|exact Hn].
+    pose proof (finish_no_term E g n s') as Hf.
+    destruct (finish_group_success E g n s') as [[[e cg] cs] s'']. cbn [fst] in Hf |- *.
+    rewrite no_term_app, Hn, Hf. reflexivity. }
+  match goal with |- context [fold_left ?f ?l ?i] => destruct (fold_left f l i) as [[[evs ngs] nss] s3] end.
+  exact H.
 Qed.
 
 Lemma task_failure_no_term E t s : no_term (fst (task_failure E t s)) = true.
 Proof.
   unfold task_failure.
-  match goal with |- context [fold_left ?f ?l (?e0, ?s0)] =>
-    pose proof (fold_no_term f (fun st => fst st) l (e0, s0)) as H end.
-  cbn in H. apply H; [reflexivity|].
-  intros [evs s'] g Hn. cbn in Hn |- *.
+  apply (fold_pres (fun st : list wqevent * state => no_term (fst st) = true)); [|reflexivity].
+  intros [evs s'] g Hn. cbn [fst] in Hn.
   destruct (aget g (gnodes s')) as [n|]; [|exact Hn].
-  cbn. rewrite no_term_app, Hn. reflexivity.
+  cbn [fst]. rewrite no_term_app, Hn. reflexivity.
 Qed.
 
 Lemma stream_items_no_term E x n b s : no_term (fst (stream_items E x n b s)) = true.
@@ -288,10 +213,10 @@ Qed.
 
 Lemma step_no_term E s e : no_term (snd (step E s e)) = true.
 Proof.
-  destruct e; cbn [step].
+  destruct e as [t|t|x n b|x|x]; cbn [step].
   - pose proof (task_success_no_term E t s). destruct (task_success E t s); exact H.
   - pose proof (task_failure_no_term E t s). destruct (task_failure E t s); exact H.
-  - pose proof (stream_items_no_term E s0 n stopped s). destruct (stream_items E s0 n stopped s); exact H.
+  - pose proof (stream_items_no_term E x n b s). destruct (stream_items E x n b s); exact H.
   - destruct (memN _ _); reflexivity.
   - reflexivity.
 Qed.
@@ -301,8 +226,8 @@ Lemma steps_no_term E evs : forall s out,
   no_term (snd (fold_left (fun (st : state * list wqevent) e =>
       let '(s, out) := st in let '(s', o) := step E s e in (s', out ++ o)) evs (s, out))) = true.
 Proof.
-  induction evs as [|e evs IH]; intros s out H; cbn; [exact H|].
-  pose proof (step_no_term E s e) as Hs. destruct (step E s e) as [s' o]. cbn in Hs.
+  induction evs as [|e evs IH]; intros s out H; cbn [fold_left snd]; [exact H|].
+  pose proof (step_no_term E s e) as Hs. destruct (step E s e) as [s' o]. cbn [snd] in Hs.
   apply IH. rewrite no_term_app, H, Hs. reflexivity.
 Qed.
 
@@ -331,4 +256,41 @@ Proof.
   - right. repeat split; auto. right. rewrite RS. discriminate.
   - right. repeat split; auto. left. rewrite R. discriminate.
   - right. repeat split; auto. left. rewrite R. discriminate.
+Qed.
+
+Lemma run_batches_stopped E : forall bs s, stopped s = true -> run_batches E s bs = (s, []).
+Proof.
+  induction bs as [|b bs IH]; intros s Hs; cbn [run_batches]; [reflexivity|].
+  destruct b as [|e b].
+  - rewrite (IH s Hs). reflexivity.
+  - unfold run_batch. rewrite Hs. rewrite (IH s Hs). reflexivity.
+Qed.
+
+(* The termination event is emitted at most once, as the very last event, exactly when a batch
+   leaves no root group and no root stream; afterwards the queue is stopped and emits nothing. *)
+Theorem terminates_exactly_once E : forall bs s s' outs,
+  stopped s = false -> run_batches E s bs = (s', outs) ->
+  (stopped s' = true /\ roots s' = [] /\ rstreams s' = [] /\
+     exists pre, concat outs = pre ++ [Termination] /\ no_term pre = true)
+  \/ (stopped s' = false /\ no_term (concat outs) = true).
+Proof.
+  induction bs as [|b bs IH]; intros s s' outs Hs H; cbn [run_batches] in H.
+  - inversion H; subst. right. split; [exact Hs|reflexivity].
+  - destruct b as [|e b].
+    + destruct (run_batches E s bs) as [s2 o2] eqn:R. inversion H; subst; clear H.
+      exact (IH _ _ _ Hs R).
+    + destruct (run_batch E s (e :: b)) as [s1 out] eqn:B.
+      destruct (run_batch_term E s (e :: b) s1 out Hs B) as [(St & R1 & R2 & pre & -> & Hp) | (St & Hn & _)].
+      * rewrite (run_batches_stopped E bs s1 St) in H. inversion H; subst; clear H.
+        left. repeat split; auto. exists pre. split; [|exact Hp].
+        destruct (pre ++ [Termination]) eqn:X; [destruct pre; discriminate|].
+        cbn. rewrite app_nil_r. reflexivity.
+      * destruct (run_batches E s1 bs) as [s2 o2] eqn:R. inversion H; subst; clear H.
+        assert (Hc : concat (match out with [] => o2 | _ :: _ => out :: o2 end) = out ++ concat o2)
+          by (destruct out; reflexivity).
+        rewrite Hc.
+        destruct (IH _ _ _ St R) as [(S2 & A & B2 & pre & Hc2 & Hp) | (S2 & Hn2)].
+        -- left. repeat split; auto. exists (out ++ pre). rewrite Hc2, app_assoc. split; [reflexivity|].
+           rewrite no_term_app, Hn, Hp. reflexivity.
+        -- right. split; [exact S2|]. rewrite no_term_app, Hn, Hn2. reflexivity.
 Qed.
